@@ -1058,13 +1058,42 @@ var _ uuid.UUID
 //@ spec dmwf(dm *DatasetManager) bool = dm.datasets != nil && dm.notificator != nil && dm.allocator != nil
 
 // newDataset (assumed): builds the in-memory dataset from the decoded record; fails only on malformed partition ids
-//@ func storage.newDataset
-//@ props C14
+// dependencies of newPartition (assumed): a new index is empty and configured with the package defaults; the WAL handle and the
+// logger are opaque here
+//@ func index.NewHnsw
+//@ props C14 C12
 //@ assume
+//@ trust defaults: NewHnsw configures ef, efConstruction and mMax0 from small package constants (newHnswConfig) and stores nothing
+//@ ensures [new-index] ret != nil && fresh(ret) && cfgSized(ret) && ret.len == 0 && ret.entrypoint == nil && wfShards(ret)
+//@ modifies nothing
+//@ func storage.newIndexFromDatasetProto
+//@ props C14 C12
+//@ assume
+//@ ensures [new-index] ret != nil && fresh(ret) && cfgSized(ret) && ret.len == 0
+//@ modifies nothing
+
+//@ func storage.newPartition
+//@ props C14 C12
+//@ requires [dataset] dataset != nil && dataset.meta != nil
+//@ ensures [C12 built] ret != nil && fresh(ret) && ret.id == id && ret.meta == meta && ret.dataset == dataset && ret.index != nil && fresh(ret.index) && cfgSized(ret.index) && ret.index.len == 0 && ret.notificator != nil && ret.notificator.chans != nil && ret.raft == nil
+//@ modifies nothing
+
+// newDataset: builds the in-memory dataset from the decoded record; fails only on a malformed partition id. For a record that
+// Create accepted (one non-nil partition record per partition) the result satisfies the invariant all request paths rely on.
+//@ func storage.newDataset
+//@ props C14 C12
+//@ requires [record] len(meta.Partitions) == meta.PartitionCount && meta.PartitionCount >= 1 && clusterConn != nil && forall i int :: 0 <= i && i < len(meta.Partitions) ==> meta.Partitions[i] != nil
 //@ ensures [built] isnil(ret1) ==> ret0 != nil && fresh(ret0) && ret0.id == id && ret0.meta != nil && ret0.meta.Dimension == meta.Dimension && ret0.meta.Space == meta.Space && ret0.meta.PartitionCount == meta.PartitionCount && ret0.meta.ReplicationFactor == meta.ReplicationFactor && ret0.meta.Partitions == meta.Partitions
 //@ ensures [partitions] isnil(ret1) ==> noNilPartitions(ret0)
+//@ ensures [C12 built-wf] isnil(ret1) ==> wfDatasetFull(ret0)
+//@ ensures [own-map] isnil(ret1) ==> fresh(ret0.partitionsMap) && fresh(ret0.partitions)
 //@ ensures [failed] !isnil(ret1) ==> ret0 == nil
 //@ modifies nothing
+//@ loop 1
+//@ invariant [building] d != nil && fresh(d) && d.id == id && d.meta != nil && fresh(d.meta) && d.clusterConn == clusterConn && d.partitionsMap != nil && fresh(d.partitionsMap) && len(d.partitions) == meta.PartitionCount && fresh(d.partitions) && 0 <= i && i <= meta.PartitionCount
+//@ invariant [meta-copied] d.meta.Dimension == meta.Dimension && d.meta.Space == meta.Space && d.meta.PartitionCount == meta.PartitionCount && d.meta.ReplicationFactor == meta.ReplicationFactor && d.meta.Partitions == meta.Partitions
+//@ invariant [built-prefix] forall j int :: 0 <= j && j < i ==> wfPartition(d, d.partitions[j]) && fresh(d.partitions[j]) && allocated(d.partitions[j])
+//@ invariant [map-built] forall k uuid.UUID :: has(d.partitionsMap, k) ==> wfPartition(d, d.partitionsMap[k]) && fresh(d.partitionsMap[k]) && allocated(d.partitionsMap[k])
 
 //@ func (*storage.Allocator).watch
 //@ props C14
@@ -1088,13 +1117,21 @@ var _ uuid.UUID
 //@ at call uuid.FromBytes
 //@ set gid = $ret0
 //@ end
-//@ requires [wf] dmwf(this)
+//@ at call proto.Unmarshal
+//@ assume [wellformed-entry: Create proposes only records with one non-nil partition record per partition (C12 Create/order#wellformed-proposal) and protobuf round-trips them] isnil($ret0) ==> len(dataset.Partitions) == dataset.PartitionCount && dataset.PartitionCount >= 1 && forall i int :: 0 <= i && i < len(dataset.Partitions) ==> dataset.Partitions[i] != nil
+//@ end
+//@ requires [wf] dmwf(this) && this.clusterConn != nil
 //@ ensures [notify-once] isnil(ret) ==> notified == 1
+//@ ensures [C12 created-wf] isnil(ret) && !old(has(this.datasets, gid)) && isnil(outcome) ==> wfDatasetFull(this.datasets[gid])
 //@ ensures [exists] isnil(ret) && old(has(this.datasets, gid)) ==> outcome == DatasetAlreadyExistsErr && this.datasets[gid] == old(this.datasets[gid]) && has(this.datasets, gid)
 //@ ensures [created] isnil(ret) && !old(has(this.datasets, gid)) && isnil(outcome) ==> has(this.datasets, gid) && this.datasets[gid] != nil && this.datasets[gid].id == gid && this.datasets[gid].meta.Dimension == dataset.Dimension && this.datasets[gid].meta.Space == dataset.Space && this.datasets[gid].meta.PartitionCount == dataset.PartitionCount && this.datasets[gid].meta.ReplicationFactor == dataset.ReplicationFactor && this.datasets[gid].meta.Partitions == dataset.Partitions
 //@ ensures [others] forall j uuid.UUID :: j != gid ==> has(this.datasets, j) == old(has(this.datasets, j)) && this.datasets[j] == old(this.datasets[j])
 //@ ensures [undecodable-changes-nothing] !isnil(ret) ==> notified == 0 && forall j uuid.UUID :: has(this.datasets, j) == old(has(this.datasets, j)) && this.datasets[j] == old(this.datasets[j])
 //@ modifies map(this.datasets), map(this.allocator.partitions)
+//@ loop 1
+//@ invariant [C12 created-wf] has(this.datasets, id) && this.datasets[id] != nil && fresh(this.datasets[id]) && fresh(this.datasets[id].partitionsMap) && wfDatasetFull(this.datasets[id]) && dmwf(this) && notified == 0 && gid == id && !old(has(this.datasets, id))
+//@ invariant [others] forall j uuid.UUID :: j != id ==> has(this.datasets, j) == old(has(this.datasets, j)) && this.datasets[j] == old(this.datasets[j])
+//@ invariant [created-fields] this.datasets[id].id == id && this.datasets[id].meta.Dimension == dataset.Dimension && this.datasets[id].meta.Space == dataset.Space && this.datasets[id].meta.PartitionCount == dataset.PartitionCount && this.datasets[id].meta.ReplicationFactor == dataset.ReplicationFactor && this.datasets[id].meta.Partitions == dataset.Partitions
 
 //@ func (*storage.DatasetManager).deleteDataset
 //@ props C14
@@ -1118,6 +1155,7 @@ var _ uuid.UUID
 //@ ensures [undecodable-changes-nothing] !isnil(ret) ==> notified == 0 && forall j uuid.UUID :: has(this.datasets, j) == old(has(this.datasets, j)) && this.datasets[j] == old(this.datasets[j])
 //@ modifies map(this.datasets), map(this.allocator.partitions)
 
+//@ spec snapRecordOK(d *pb.Dataset) bool = len(d.Partitions) == d.PartitionCount && d.PartitionCount >= 1 && forall i int :: 0 <= i && i < len(d.Partitions) ==> d.Partitions[i] != nil
 //@ spec snapId(ds []*pb.Dataset, i int) uuid.UUID = uuidOfBytes(ds[i].Id)
 //@ spec inSnap(ds []*pb.Dataset, j uuid.UUID, n int) bool = exists i int :: 0 <= i && i < n && snapId(ds, i) == j
 
@@ -1125,7 +1163,10 @@ var _ uuid.UUID
 //@ func (*storage.DatasetManager).processSnapshot
 //@ props C14
 //@ safety C12
-//@ requires [wf] dmwf(this)
+//@ at call proto.Unmarshal
+//@ assume [wellformed-snapshot: a catalogue snapshot lists records of datasets that were created from well-formed records] isnil($ret0) ==> forall i int :: 0 <= i && i < len(dmSnapshot.Datasets) ==> dmSnapshot.Datasets[i] != nil && snapRecordOK(dmSnapshot.Datasets[i])
+//@ end
+//@ requires [wf] dmwf(this) && this.clusterConn != nil
 //@ requires [entries] forall j uuid.UUID :: has(this.datasets, j) ==> this.datasets[j] != nil && noNilPartitions(this.datasets[j])
 //@ ensures [exact] isnil(ret) ==> forall j uuid.UUID :: has(this.datasets, j) == inSnap(dmSnapshot.Datasets, j, len(dmSnapshot.Datasets))
 //@ ensures [kept-as-they-were] isnil(ret) ==> forall j uuid.UUID :: has(this.datasets, j) && old(has(this.datasets, j)) ==> this.datasets[j] == old(this.datasets[j])
@@ -1136,7 +1177,7 @@ var _ uuid.UUID
 //@ invariant [nothing-else] forall j uuid.UUID :: has(this.datasets, j) ==> old(has(this.datasets, j)) || inSnap(dmSnapshot.Datasets, j, rangeindex + 1)
 //@ invariant [old-kept] forall j uuid.UUID :: old(has(this.datasets, j)) ==> has(this.datasets, j) && this.datasets[j] == old(this.datasets[j])
 //@ invariant [entries] forall j uuid.UUID :: has(this.datasets, j) ==> this.datasets[j] != nil && noNilPartitions(this.datasets[j])
-//@ invariant [snapshot-fixed] dmwf(this) && forall i int :: 0 <= i && i < len(dmSnapshot.Datasets) ==> dmSnapshot.Datasets[i] == old(dmSnapshot.Datasets[i])
+//@ invariant [snapshot-fixed] dmwf(this) && this.clusterConn != nil && forall i int :: 0 <= i && i < len(dmSnapshot.Datasets) ==> dmSnapshot.Datasets[i] == old(dmSnapshot.Datasets[i]) && dmSnapshot.Datasets[i] != nil && snapRecordOK(dmSnapshot.Datasets[i])
 //@ loop 3
 //@ invariant [ids] snapshotIds != nil && forall j uuid.UUID :: has(snapshotIds, j) == inSnap(dmSnapshot.Datasets, j, len(dmSnapshot.Datasets))
 //@ invariant [snap-present] forall j uuid.UUID :: has(snapshotIds, j) ==> has(this.datasets, j)
